@@ -57,6 +57,7 @@ static __thread int t_tag;
 static __thread int t_nonblock;
 
 static int g_sndbuf, g_rcvbuf;
+static int g_user_timeout_override; /* ms; 0 = pass the library's value through */
 
 /* C06: one-shot I/O fault per tag and direction, send byte budget, connect fault */
 static int g_io_fail_n[SH_MAX_TAGS][2], g_io_fail_errno[SH_MAX_TAGS][2];
@@ -283,6 +284,16 @@ int sh_data_fd(int tag)
     return best;
 }
 
+int sh_connect_unobserved(int tag)
+{
+    int r = 0;
+    lock();
+    for (int fd = 0; fd < MAXFD; fd++)
+        if (fds[fd].used && fds[fd].tag == tag && fds[fd].kind == K_TCP && fds[fd].connecting && !fds[fd].connected) r = 1;
+    unlock();
+    return r;
+}
+
 int sh_listen_fd(int tag, int idx)
 {
     int r = -1;
@@ -305,6 +316,7 @@ void sh_retag(int from, int to)
 }
 
 void sh_set_bufsizes(int sndbuf, int rcvbuf) { g_sndbuf = sndbuf; g_rcvbuf = rcvbuf; }
+void sh_override_user_timeout(int ms) { g_user_timeout_override = ms; }
 
 void sh_fail_io_at(int tag, enum sh_dir dir, int n, int err)
 {
@@ -420,8 +432,13 @@ static int do_accept(int sockfd, struct sockaddr *addr, socklen_t *addrlen, int 
     resolve_accept4();
     resolve_accept();
     if (t_inside) {
-        if (t_nonblock && is_lib_fd(sockfd) && !fd_nonblocking(sockfd))
+        if (t_nonblock && is_lib_fd(sockfd) && !fd_nonblocking(sockfd)) {
             sleep_violation("accept on a blocking listening socket", sockfd);
+            /* the violation is recorded; do not really hang the harness */
+            resolve_poll();
+            struct pollfd p = {sockfd, POLLIN, 0};
+            if (real_poll(&p, 1, 0) <= 0) { errno = EAGAIN; return -1; }
+        }
         int inj = resource_call("accept4");
         if (inj) {
             /* a failed accept on EMFILE etc leaves the connection queued */
@@ -538,8 +555,10 @@ ssize_t send(int fd, const void *buf, size_t len, int flags)
     if (!t_inside || !is_lib_fd(fd)) return real_send(fd, buf, len, flags);
     int tag = fds[fd].tag;
     struct sh_counters *c = valid_tag(tag) ? &cnts[tag] : NULL;
-    if (t_nonblock && !fd_nonblocking(fd) && !(flags & MSG_DONTWAIT))
+    if (t_nonblock && !fd_nonblocking(fd) && !(flags & MSG_DONTWAIT)) {
         sleep_violation("send on a blocking socket", fd);
+        flags |= MSG_DONTWAIT; /* recorded; do not really hang the harness */
+    }
     if (c) c->send_calls++;
     struct directive d;
     size_t n = len;
@@ -594,8 +613,10 @@ ssize_t recv(int fd, void *buf, size_t len, int flags)
     if (!t_inside || !is_lib_fd(fd)) return real_recv(fd, buf, len, flags);
     int tag = fds[fd].tag;
     struct sh_counters *c = valid_tag(tag) ? &cnts[tag] : NULL;
-    if (t_nonblock && !fd_nonblocking(fd) && !(flags & MSG_DONTWAIT))
+    if (t_nonblock && !fd_nonblocking(fd) && !(flags & MSG_DONTWAIT)) {
         sleep_violation("recv on a blocking socket", fd);
+        flags |= MSG_DONTWAIT; /* recorded; do not really hang the harness */
+    }
     if (c) c->recv_calls++;
     struct directive d;
     size_t n = len;
@@ -661,7 +682,11 @@ int poll(struct pollfd *pfds, nfds_t n, int timeout)
     resolve_poll();
     if (t_inside) {
         if (timeout != 0) {
-            if (t_nonblock) sleep_violation("poll with non-zero timeout", timeout);
+            if (t_nonblock) {
+                sleep_violation("poll with non-zero timeout", timeout);
+                /* recorded; bound the sleep so that the harness cannot hang */
+                if (timeout < 0 || timeout > 200) timeout = 200;
+            }
             int inj = 0;
             lock();
             g_blocking_polls++;
@@ -710,7 +735,10 @@ int select(int n, fd_set *r, fd_set *w, fd_set *e, struct timeval *tv)
 int epoll_wait(int epfd, struct epoll_event *ev, int max, int timeout)
 {
     resolve_epoll_wait();
-    if (t_inside && t_nonblock && timeout != 0) sleep_violation("epoll_wait with non-zero timeout", timeout);
+    if (t_inside && t_nonblock && timeout != 0) {
+        sleep_violation("epoll_wait with non-zero timeout", timeout);
+        if (timeout < 0 || timeout > 200) timeout = 200;
+    }
     return real_epoll_wait(epfd, ev, max, timeout);
 }
 
@@ -809,6 +837,12 @@ int setsockopt(int fd, int level, int opt, const void *val, socklen_t len)
             memcpy(&r->value, val, sizeof(int));
         }
         unlock();
+    }
+    if (t_inside && is_lib_fd(fd) && g_user_timeout_override && level == IPPROTO_TCP && opt == TCP_USER_TIMEOUT &&
+        len >= sizeof(int)) {
+        /* slow-motion histories (1-byte receives, tiny windows) must not trip the 3 s default */
+        int v = g_user_timeout_override;
+        return real_setsockopt(fd, level, opt, &v, sizeof(v));
     }
     return real_setsockopt(fd, level, opt, val, len);
 }
